@@ -36,8 +36,35 @@ class ConcreteCtx:
         self.counters[base] = n + 1
         return base if n == 0 else '%s!%d' % (base, n)
 
-    def get(self, name, default):
+    def get(self, name, default, n=None):
+        """value of constant `name` in the model; n: the value is an index below n"""
         return self.model.get(name, default)
+
+
+class RandomCtx(ConcreteCtx):
+    """Concrete values chosen at random (seeded): used for the CPython cross-check of the interpreter."""
+
+    def __init__(self, rnd):
+        ConcreteCtx.__init__(self, {})
+        self.rnd = rnd
+
+    def get(self, name, default, n=None):
+        if name in self.model:
+            return self.model[name]
+        r = self.rnd
+        if n is not None:
+            v = r.randrange(n)
+        elif isinstance(default, bool):
+            v = r.random() < 0.5
+        elif isinstance(default, int):
+            v = r.choice([-2, -1, 0, 1, 2, 3, 5, 10]) if default == 0 else default + r.choice([0, 1, 2, 7])
+        elif isinstance(default, str):
+            v = ''.join(r.choice(['a', 'b', ' ', '\n', '@', '[', ']', "'", '"', '#', 'é'])
+                        for _ in range(r.randrange(0, 6)))
+        else:
+            v = default
+        self.model[name] = v
+        return v
 
 
 class Ty:
@@ -142,7 +169,7 @@ class OneOf(Ty):
     def concrete(self, cx, name):
         if len(self.values) == 1:
             return self.values[0]
-        return self.values[cx.get(cx.fresh_name(name + '.idx'), 0)]
+        return self.values[cx.get(cx.fresh_name(name + '.idx'), 0, len(self.values))]
 
 
 def EnumOf(cls, *extra):
@@ -162,7 +189,7 @@ class Union(Ty):
         return self.alts[i].make(interp, name)
 
     def concrete(self, cx, name):
-        i = cx.get(cx.fresh_name(name + '.alt'), 0)
+        i = cx.get(cx.fresh_name(name + '.alt'), 0, len(self.alts))
         return self.alts[i].concrete(cx, name)
 
 
@@ -251,6 +278,13 @@ class ListOf(Ty):
 
         return SList(n, elem, uid)
 
+    def concrete(self, cx, name):
+        n = cx.get(cx.fresh_name(name + '.len'), self.min_len, None)
+        if isinstance(cx, RandomCtx):
+            n = self.min_len + abs(n) % 4
+        n = max(self.min_len, min(int(n), 6))
+        return [self.elem.concrete(cx, '%s[%d]' % (name, i)) for i in range(n)]
+
 
 class MListOf(Ty):
     """A *mutable* list of symbolic length whose elements are ints / bools / strings or tuples of these
@@ -270,6 +304,9 @@ class MListOf(Ty):
         interp.st.assume(n >= 0)
         m.length = n
         return m
+
+    def concrete(self, cx, name):
+        return ListOf(self.elem).concrete(cx, name)
 
 
 def _mshape(ty):
@@ -295,6 +332,9 @@ class IterOf(Ty):
         from .models import SIter
         return SIter(ListOf(self.elem).make(interp, name), 0)
 
+    def concrete(self, cx, name):
+        return iter(ListOf(self.elem).concrete(cx, name))
+
 
 class FixedList(Ty):
     def __init__(self, *elems, as_tuple=False):
@@ -316,16 +356,33 @@ class Opaq(Ty):
     def make(self, interp, name):
         return OpaqueVal(interp.st.fresh_name(name))
 
+    def concrete(self, cx, name):
+        return _Anything(cx.fresh_name(name))
+
+
+class _Anything:
+    def __init__(self, name):
+        self.name = name
+
+    def __repr__(self):
+        return '<any %s>' % self.name
+
 
 Any_ = Opaq()
 
 
 class Custom(Ty):
-    def __init__(self, fn):
+    def __init__(self, fn, concrete=None):
         self.fn = fn
+        self.concrete_fn = concrete
 
     def make(self, interp, name):
         return self.fn(interp, name)
+
+    def concrete(self, cx, name):
+        if self.concrete_fn is None:
+            raise NoConcrete('Custom shape without a concrete reconstruction')
+        return self.concrete_fn(cx, name)
 
 
 def make_indexed(interp, ty, uid, idx_term):
